@@ -292,6 +292,17 @@ class WT:
                 if rets and len(ns) == 1 and all(isinstance(r_.value, ast.Tuple) for r_ in rets):
                     args.extend(('index', sv, ('const', i_)) for i_ in range(ns.pop()))
         kwargs = {k.arg: self.ev(f, k.value, env, depth) for k in e.keywords if k.arg}
+        for k in e.keywords:
+            if k.arg is None:
+                # f(**opts): a dict built by `dict(a=.., b=..)` or a literal with constant string keys is spliced in
+                dv = self.ev(f, k.value, env, depth)
+                if isinstance(dv, tuple) and dv and dv[0] == 'call' and dv[1] in (('global', 'dict'), 'builtins.dict') and not dv[2]:
+                    for k_, v_ in dv[3]:
+                        kwargs.setdefault(k_, v_)
+                elif isinstance(dv, tuple) and dv and dv[0] == 'dict':
+                    for k_, v_ in dv[1]:
+                        if isinstance(k_, tuple) and k_[0] == 'const' and isinstance(k_[1], str):
+                            kwargs.setdefault(k_[1], v_)
         if isinstance(fn, ast.Attribute):
             recv = self.ev(f, fn.value, env, depth)
             if fn.attr == 'to_numpy' and not args:
@@ -437,8 +448,12 @@ class WT:
                     if r1 is not None and r2 is not None:
                         ret = r1 if r1 == r2 else ('phi', c, r1, r2)
                         break
-                    # one branch returns: the rest of the block yields the other value
+                    # one branch returns: the rest of the block yields the other value - and runs only when that branch
+                    # was not taken
+                    saved_g = self.guards
+                    self.guards = saved + [neg(c) if r1 is not None else c]
                     rest_env, rest_ret = self.block(f, stmts[stmts.index(s) + 1:], env, depth)
+                    self.guards = saved_g
                     a, b_ = (r1, rest_ret) if r1 is not None else (rest_ret, r2)
                     ret = a if a == b_ else ('phi', c, a, b_)
                     env.update(rest_env)
@@ -482,7 +497,16 @@ class WT:
             elif isinstance(s, (ast.FunctionDef, ast.ClassDef, ast.Import, ast.ImportFrom, ast.Pass, ast.Assert, ast.Delete,
                                 ast.Global, ast.Nonlocal, ast.Continue, ast.Break)):
                 if isinstance(s, ast.FunctionDef):
-                    env[s.name] = ('localfunc', s.name, f.children.get(s.name) if hasattr(f, 'children') else None)
+                    lf_ = f.children.get(s.name) if hasattr(f, 'children') else None
+                    env[s.name] = ('localfunc', s.name, lf_)
+                    # a closure that only forwards to a package function is the functools.partial it spells
+                    from .dasksites import _forwarding
+                    pt = _forwarding(self.prog, lf_) if lf_ is not None else None
+                    if pt is not None and pt is not lf_ and isinstance(pt.target, Func):
+                        kws_ = {k_: self.ev(f, v_, env, depth) for k_, v_ in pt.keywords.items()}
+                        res_ = ('call', 'functools.partial', (('global', pt.target.name),), tuple(sorted(kws_.items())))
+                        self.calls.append(Call('functools.partial', {}, [('global', pt.target.name)], kws_, s, list(self.guards), f, res_))
+                        env[s.name] = res_
                 continue
         return env, ret
 
